@@ -298,6 +298,44 @@ func evalStep(pool []entry, step string) (ent entry, obs string) {
 		if !ok || !ok1 {
 			return bad, "X~parse"
 		}
+		// give every row spare capacity guarded by sentinels, keep a deep copy, and check after
+		// the call that the library wrote neither into the rows nor behind them
+		const sentinel = "\x00verif-sentinel"
+		fulls := make([][]string, len(d))
+		orig := make([][]string, len(d))
+		for i := range d {
+			full := make([]string, len(d[i])+3)
+			copy(full, d[i])
+			for j := len(d[i]); j < len(full); j++ {
+				full[j] = sentinel
+			}
+			fulls[i] = full
+			orig[i] = append([]string{}, d[i]...)
+			d[i] = full[:len(d[i])]
+		}
+		argsIntact := func() bool {
+			for i := range fulls {
+				if len(d[i]) != len(orig[i]) {
+					return false
+				}
+				for j := range orig[i] {
+					if fulls[i][j] != orig[i][j] {
+						return false
+					}
+				}
+				for j := len(orig[i]); j < len(fulls[i]); j++ {
+					if fulls[i][j] != sentinel {
+						return false
+					}
+				}
+			}
+			return true
+		}
+		defer func() {
+			if !argsIntact() {
+				ent, obs = bad, "X~argmut"
+			}
+		}()
 		if a[5] == "=" {
 			return edRes(e.InsertTable(n[0], d, n[1]))
 		}
@@ -478,9 +516,11 @@ func evalCase(kind string, args []string) (res string) {
 		var pool []entry
 		var flags []string
 		for _, st := range strings.Split(args[0], ";") {
-			en, _ := evalStep(pool, st)
+			en, ob := evalStep(pool, st)
 			pool = append(pool, en)
-			if vh.GemZeroFilled() {
+			if ob == "X~argmut" {
+				flags = append(flags, "M")
+			} else if vh.GemZeroFilled() {
 				flags = append(flags, "1")
 			} else {
 				flags = append(flags, "0")
